@@ -81,5 +81,6 @@ def run(ck, quick, rng, mc=True, d16=False):
         p = gen(rng, i, d16=d16)
         strat = ["random", rng.randrange(10 ** 9), 0.5] if i % 3 else ["pct", rng.randrange(10 ** 9), 3, 100]
         tasks.append({"scen": "chain", "params": p, "strat": strat, "gran": "line" if i % 3 == 0 else "sync",
-                      "lock_log": True, "facts": facts_of(p)})
+                      "lock_log": True, "lock_key": "chain/%d/%s/%s" % (p["n"], p["recancel"], p["xcan"]),
+                      "facts": facts_of(p)})
     return ck.run_and_validate(tasks, TRACE)
